@@ -23,8 +23,8 @@ var c10CommentTexts = []string{"", "a label", "gomacro:no-enum"}
 // HC10_fetchPkgEnums: grouping of the typed constants of a package scope into enums.
 // The package carries a real go/ast file (one const declaration, one spec per constant) so that
 // the real fetchConstComment/nodeAt code reads the trailing comments.
-func HC10_fetchPkgEnums() {
-	k := 1 + vfChoice("k", vfParam("C10.scope", 3))
+// c10World builds a package (go/types scope + go/ast const declaration) of k further objects.
+func c10World(k int) (*packages.Package, []*c10Obj, *types.Named, *types.Named) {
 	fset := token.NewFileSet()
 	tf := fset.AddFile("p.go", -1, 10000)
 	base := token.Pos(tf.Base())
@@ -79,6 +79,14 @@ func HC10_fetchPkgEnums() {
 		file.Decls = []ast.Decl{gen}
 	}
 	pa := &packages.Package{PkgPath: "example.com/p", Fset: fset, Syntax: []*ast.File{file}, Types: pkg}
+
+	return pa, objs, t1, t2
+}
+
+// HC10_fetchPkgEnums: see the comment above c10Obj.
+func HC10_fetchPkgEnums() {
+	k := 1 + vfChoice("k", vfParam("C10.scope", 3))
+	pa, objs, t1, t2 := c10World(k)
 
 	var out enumsMap
 	panicked, _, msg := vfCatch(func() { out = fetchPkgEnums(pa) })
